@@ -481,6 +481,14 @@ fn order_axioms(cfg: &Cfg) -> Ctx {
 
 pub fn run(cfg: &Cfg) -> Report {
     let mut report = Report::new(cfg);
+    crate::monitor::set_poison(|k| {
+        let letters: Vec<isize> = vec![3, 1, -2, 2, 5, 6, 7];
+        if k % 2 == 0 {
+            let _ = FreeWord::new(crate::shapes::panicking(&letters, 2 + (k as usize / 2) % 4));
+        } else {
+            let _ = FreeWord::from(crate::shapes::panicking(&letters, 1 + (k as usize / 2) % 5));
+        }
+    });
 
     // Part A: exhaustive single operations over all raw letter sequences
     let raws = raw_words(&[-2, -1, 0, 1, 2], cfg.tier.pick(4, 5));
@@ -561,7 +569,72 @@ pub fn run(cfg: &Cfg) -> Report {
     });
     report.absorb(ctx);
 
-    report.rule = "cases: (A) every raw letter sequence over {-2..2} (0 included) up to the length bound, through every unary operation and, pairwise up to length 3, through all four Mul operand forms, *=, commutator; (B) order axioms on all triples of reduced words; (C) random operation histories of length 24 over a 4-slot pool with words up to length 200. A case is non-trivial when at least one free cancellation happened in it; distinct = distinct (kind, input) digests".into();
+    // Part D: conjugates before their cores, on the same thread. A reduced word u c u^-1 is queried first,
+    // then c, every rotation of c, its inverse and the rotations of the conjugate ("partial conjugates"):
+    // the relator representative of each must be the least of *its own* rotations and inverses, whatever
+    // was asked before (a seeded change memoised representatives per thread and shared them between a
+    // non-cyclically-reduced word and its core).
+    let nd = cfg.tier.pick(60_000, 1_000_000);
+    let ctx = par_range(cfg, nd, |ctx, k| {
+        let mut rng = Rng::stream(seed, 0x10_D000_0000 + k as u64);
+        let gens = rng.range(2, 3);
+        let letter = |rng: &mut Rng| {
+            let g = rng.range(1, gens);
+            if rng.chance(1, 2) { g } else { -g }
+        };
+        let len = 3 + rng.below(12);
+        let mut c: Word = vec![];
+        while c.len() < len {
+            let l = letter(&mut rng);
+            if c.last().map_or(true, |&p| p != -l) {
+                c.push(l);
+            }
+        }
+        while c.len() > 1 && c[0] == -c[c.len() - 1] {
+            c.pop();
+        }
+        let mut u: Word = vec![];
+        let ulen = 1 + rng.below(3);
+        let mut guard = 0;
+        while u.len() < ulen && guard < 100 {
+            guard += 1;
+            let l = letter(&mut rng);
+            if u.last().map_or(true, |&p| p != -l) {
+                u.push(l);
+            }
+        }
+        // u must not cancel against c on either side (so that u c u^-1 is reduced as written)
+        if u.is_empty() || *u.last().unwrap() == -c[0] || *u.last().unwrap() == c[c.len() - 1] {
+            ctx.out_of_domain("conjugator cancels against the core");
+            return;
+        }
+        let f = rng.below(4) as u8;
+        let mut ops = vec![Op::New(0, c.clone()), Op::New(1, u.clone()), Op::Inverse(2, 1), Op::Mul(3, 1, 0, f), Op::Mul(3, 3, 2, f), Op::RelRep(3), Op::RelPerms(3), Op::RelRep(0), Op::RelPerms(0)];
+        for i in 1..c.len() as i64 {
+            ops.push(Op::Rotated(2, 0, i));
+            ops.push(Op::RelRep(2));
+        }
+        ops.push(Op::Inverse(2, 0));
+        ops.push(Op::RelRep(2));
+        let cl = (c.len() + 2 * u.len()) as i64;
+        for _ in 0..4 {
+            ops.push(Op::Rotated(2, 3, rng.range(1, cl - 1)));
+            ops.push(Op::RelRep(2));
+            ops.push(Op::RelPerms(2));
+        }
+        ops.push(Op::RelRep(0));
+        let (j, _) = run_history(ctx, &ops);
+        ctx.evals(j);
+        ctx.count("conjugate_before_core_histories");
+        if c.len() + 2 * u.len() >= 8 {
+            ctx.count("conjugate_before_core_histories_with_conjugate_length_8_or_more");
+        }
+        ctx.nontrivial(digest(&("conj", &c, &u)));
+    });
+    report.absorb(ctx);
+    report.require_counter("conjugate_before_core_histories_with_conjugate_length_8_or_more", (nd / 4) as u64);
+
+    report.rule = "cases: (A) every raw letter sequence over {-2..2} (0 included) up to the length bound, through every unary operation and, pairwise up to length 3, through all four Mul operand forms, *=, commutator; (B) order axioms on all triples of reduced words; (C) random operation histories of length 24 over a 4-slot pool with words up to length 200; (D) conjugate-before-core histories (u c u^-1 queried before c, its rotations, inverse and partial conjugates). Between judged cases the worker threads make abandoned constructor calls (input iterator that panics half way). A case is non-trivial when at least one free cancellation happened in it; distinct = distinct (kind, input) digests".into();
     report.explanation = "library value after every operation compared letter by letter with an independent free-group model (cancel-until-fixpoint); relator representative/permutations compared with the model's rotation set ordered by the library's own validated order".into();
     report.exhaustive = false;
     report.note("exhaustive_subuniverses", json!(["all raw letter sequences up to the length bound (unary ops)", "all pairs of raw sequences up to length 3 (binary ops)", "all ordered triples of reduced words (order axioms)"]));
